@@ -22,6 +22,8 @@ def parseOp (s : String) : Option Op :=
   | ["rot"] => some .rotate
   | ["ct"] => some .copyTruncate
   | ["del"] => some .delete
+  -- rotated away, and what took the log's place cannot be opened: for the stream the log has gone
+  | ["rotx"] => some .delete
   | ["cre"] => some .create
   | ["p"] => some .poll
   -- content the file holds before the tailer starts: the stream opens at the end of the file, so
